@@ -201,6 +201,11 @@ def ext_isnan(x, args, kwargs, st, n):
 
 def ext_hypot(x, args, kwargs, st, n):
     """assumed: math.hypot(a, b) is the Euclidean norm: h >= 0 and h*h == a*a + b*b (finite arguments)"""
+    if len(args) != 2:
+        vs = [x.as_num(st, a_, n) for a_ in args]
+        hn = z3.Function(f"hypot{len(args)}", *([z3.RealSort()] * (len(args) + 1)))
+        x.ghost.setdefault("hypot", []).append(tuple(vs) + (hn(*[v.val for v in vs]),))
+        return VNum(z3.IntVal(0), hn(*[v.val for v in vs]), False)
     a, b = x.as_num(st, args[0], n), x.as_num(st, args[1], n)
     h = fresh("hypot", z3.RealSort())
     x.assume.append(IMP(AND(a.finite, b.finite), AND(h >= 0, h * h == a.val * a.val + b.val * b.val)))
@@ -229,12 +234,19 @@ def hooks_loop(x, node, st):
     obj = st.heap[it.oid]
     if "$l" in obj:
         return x.unrolled_loop(node, x.iter_items(it, st, node), st)
-    body_ok = (len(node.body) == 1 and isinstance(node.body[0], ast.Assign) and isinstance(node.body[0].value, ast.Call)
-               and isinstance(node.body[0].value.func, ast.Name) and node.body[0].value.func.id == node.target.id and not node.orelse)
+    stmt0 = node.body[0] if len(node.body) == 1 else None
+    call0 = stmt0.value if isinstance(stmt0, (ast.Assign, ast.Expr)) else None
+    body_ok = (isinstance(call0, ast.Call) and isinstance(call0.func, ast.Name) and call0.func.id == node.target.id and not node.orelse)
     if not body_ok: raise Unsupported("hook loop body is not the single call statement the loop contract covers")
-    tgt = node.body[0].targets[0]
-    if not isinstance(tgt, ast.Name): raise Unsupported("hook loop assigns to a non-variable")
-    var = tgt.id
+    if isinstance(stmt0, ast.Assign):
+        tgt = stmt0.targets[0]
+        if not isinstance(tgt, ast.Name): raise Unsupported("hook loop assigns to a non-variable")
+        var = tgt.id
+    else:
+        # the hook's return value is dropped: the dict handed on is the one passed in (third positional argument)
+        a3 = call0.args[2] if len(call0.args) > 2 else None
+        if not isinstance(a3, ast.Name): raise Unsupported("hook call shape")
+        var = a3.id
     first = fresh("hook_first_iteration", z3.BoolSort())
     incoming_ref, wf_in, _ = mk_params(st, "hookin")
     cur = x.dict_of(st, st.env[var])
